@@ -22,7 +22,8 @@ RULE = ("cases = (layer class, geometry within the deviation bound, quantizer pe
         "changed its tensor and the quantized output differs from the unquantized stock layer")
 ASSUMPTIONS = [
     "tf_keras layers and TensorFlow kernels are trusted (they are the reference)",
-    "channels_last; QGRU with reset_after=False; no transposed convolutions; depthwise strides equal in both directions; "
+    "channels_first convolutions are compared with the stock channels_last layer on the transposed input (the stock "
+    "channels_first kernels do not run on this CPU; the Q layers do); pooling channels_last only; QGRU with reset_after=False; no transposed convolutions; depthwise strides equal in both directions; "
     "QSeparableConv1D without causal padding (these do not run for the stock layer either in this image)",
     "recurrent layers: state_quantizer=None, no dropout; comparison at relative 1e-5 (the stock cells use a "
     "mathematically equal but differently ordered op sequence); all other layers bit-exact",
@@ -40,22 +41,26 @@ SPECS = {
                    axes={"n_in": [4, 1, 7], "units": [3, 1, 2], "use_bias": [True, False]}),
     "QConv1D": dict(stock="Conv1D", w=["kernel_quantizer", "bias_quantizer"],
                     axes={"T": [6, 5], "cin": [3, 1], "filters": [2, 1], "k": [3, 1, 2], "strides": [1, 2],
-                          "padding": ["valid", "same", "causal"], "dilation_rate": [1, 2], "use_bias": [True, False]}),
+                          "padding": ["valid", "same", "causal"], "dilation_rate": [1, 2], "use_bias": [True, False],
+                          "data_format": ["channels_last", "channels_first"]}),
     "QConv2D": dict(stock="Conv2D", w=["kernel_quantizer", "bias_quantizer"],
                     axes={"H": [6, 5], "W": [6, 7], "cin": [4, 2], "filters": [2, 4], "kh": [3, 1, 2], "kw": [3, 1, 2],
                           "strides": [1, 2], "padding": ["valid", "same"], "dilation_rate": [1, 2], "groups": [1, 2],
-                          "use_bias": [True, False]}),
+                          "use_bias": [True, False], "data_format": ["channels_last", "channels_first"]}),
     "QDepthwiseConv2D": dict(stock="DepthwiseConv2D", w=["depthwise_quantizer", "bias_quantizer"],
                              axes={"H": [6, 5], "W": [6, 7], "cin": [3, 1], "kh": [3, 1, 2], "kw": [3, 1, 2],
                                    "strides": [1, 2], "padding": ["valid", "same"], "depth_multiplier": [1, 2],
-                                   "dilation_rate": [1, 2], "use_bias": [True, False]}),
+                                   "dilation_rate": [1, 2], "use_bias": [True, False],
+                                   "data_format": ["channels_last", "channels_first"]}),
     "QSeparableConv1D": dict(stock="SeparableConv1D", w=["depthwise_quantizer", "pointwise_quantizer", "bias_quantizer"],
                              axes={"T": [6, 5], "cin": [3, 1], "filters": [2, 1], "k": [3, 1, 2], "strides": [1, 2],
-                                   "padding": ["valid", "same"], "depth_multiplier": [1, 2], "use_bias": [True, False]}),
+                                   "padding": ["valid", "same"], "depth_multiplier": [1, 2], "use_bias": [True, False],
+                                   "dilation_rate": [1, 2], "data_format": ["channels_last", "channels_first"]}),
     "QSeparableConv2D": dict(stock="SeparableConv2D", w=["depthwise_quantizer", "pointwise_quantizer", "bias_quantizer"],
                              axes={"H": [6, 5], "W": [6, 7], "cin": [3, 1], "filters": [2, 1], "kh": [3, 1, 2],
                                    "kw": [3, 1, 2], "strides": [1, 2], "padding": ["valid", "same"],
-                                   "depth_multiplier": [1, 2], "dilation_rate": [1, 2], "use_bias": [True, False]}),
+                                   "depth_multiplier": [1, 2], "dilation_rate": [1, 2], "use_bias": [True, False],
+                                   "data_format": ["channels_last", "channels_first"]}),
     "QSimpleRNN": dict(stock="SimpleRNN", w=["kernel_quantizer", "recurrent_quantizer", "bias_quantizer"], rnn=True,
                        axes={"T": [4, 2], "n_in": [3, 1], "units": [2, 1, 3], "use_bias": [True, False],
                              "return_sequences": [False, True], "go_backwards": [False, True]}),
@@ -65,6 +70,11 @@ SPECS = {
     "QGRU": dict(stock="GRU", w=["kernel_quantizer", "recurrent_quantizer", "bias_quantizer"], rnn=True,
                  axes={"T": [4, 2], "n_in": [3, 1], "units": [2, 1, 3], "use_bias": [True, False],
                        "return_sequences": [False, True], "implementation": [1, 2]}),
+    # the wrapper: one inner recurrent layer (both directions built from its configuration) or an explicit backward layer
+    "QBidirectional": dict(stock="Bidirectional", w=["kernel_quantizer", "recurrent_quantizer", "bias_quantizer"], rnn=True, bidir=True,
+                           axes={"inner": ["QLSTM", "QSimpleRNN", "QGRU"], "T": [4, 2], "n_in": [3, 1], "units": [2, 1],
+                                 "use_bias": [True, False], "return_sequences": [False, True],
+                                 "merge_mode": ["concat", "sum"], "backward": ["derived", "explicit"]}),
     "QAveragePooling2D": dict(stock="AveragePooling2D", w=["average_quantizer"], pool=True,
                               axes={"H": [6, 5], "W": [6, 7], "c": [3, 1], "pool": [2, 3], "strides": [None, 1, 2],
                                     "padding": ["valid", "same"]}),
@@ -106,8 +116,15 @@ def enumerate_cases(tier, seed):
     else:
       plans = [(2, 2), (1, None)]
     seen = set()
-    for gdev, max_q in plans:
-      for g in common.dev_product(spec["axes"], gdev):
+    geoms = [(g, max_q) for gdev, max_q in plans for g in common.dev_product(spec["axes"], gdev)]
+    if tier == "quick" and "data_format" in spec["axes"]:
+      # the data format interacts with every spatial parameter (axis bookkeeping): channels_first x each single other
+      # deviation, with at most one quantized slot
+      for g in common.dev_product(spec["axes"], 1):
+        if g["data_format"] == "channels_last":
+          geoms.append((dict(g, data_format="channels_first"), 1))
+    for g, max_q in geoms:
+      if True:
         if g.get("groups", 1) > 1 and (g["cin"] % g["groups"] or g["filters"] % g["groups"]):
           continue
         if g.get("dilation_rate", 1) > 1 and g.get("strides", 1) not in (1, None):
@@ -128,7 +145,7 @@ def _input_shape(cls, g):
     return (2, g["T"], g["cin"])
   if cls in ("QConv2D", "QDepthwiseConv2D", "QSeparableConv2D"):
     return (2, g["H"], g["W"], g["cin"])
-  if cls in ("QSimpleRNN", "QLSTM", "QGRU"):
+  if cls in ("QSimpleRNN", "QLSTM", "QGRU", "QBidirectional"):
     return (2, g["T"], g["n_in"])
   if cls in ("QAveragePooling2D", "QGlobalAveragePooling2D"):
     return (2, g["H"], g["W"], g["c"])
@@ -149,7 +166,7 @@ def _kwargs(cls, g):
                 depth_multiplier=g["depth_multiplier"], dilation_rate=g["dilation_rate"], use_bias=g["use_bias"])
   if cls == "QSeparableConv1D":
     return dict(filters=g["filters"], kernel_size=g["k"], strides=g["strides"], padding=g["padding"],
-                depth_multiplier=g["depth_multiplier"], use_bias=g["use_bias"])
+                depth_multiplier=g["depth_multiplier"], use_bias=g["use_bias"], dilation_rate=g["dilation_rate"])
   if cls == "QSeparableConv2D":
     return dict(filters=g["filters"], kernel_size=(g["kh"], g["kw"]), strides=g["strides"], padding=g["padding"],
                 depth_multiplier=g["depth_multiplier"], dilation_rate=g["dilation_rate"], use_bias=g["use_bias"])
@@ -181,6 +198,24 @@ def set_pattern_weights(layer, seed):
   return new
 
 
+def _to_cf(x):
+  return np.ascontiguousarray(np.transpose(x, [0, x.ndim - 1] + list(range(1, x.ndim - 1))))
+
+
+def _from_cf(y):
+  return np.ascontiguousarray(np.transpose(y, [0] + list(range(2, y.ndim)) + [1])) if y.ndim > 2 else y
+
+
+def _build_bidir(tf, qkeras, g, qkw, act, quantized):
+  """(layer, stock factory inputs): the QBidirectional under test."""
+  inner = g["inner"]
+  extra = dict(reset_after=False) if inner == "QGRU" else {}
+  kw = dict(units=g["units"], use_bias=g["use_bias"], return_sequences=g["return_sequences"], **extra)
+  fw = getattr(qkeras, inner)(activation=act, name="fw", **kw, **qkw)
+  bw = getattr(qkeras, inner)(activation=act, name="bw", go_backwards=True, **kw, **qkw) if g["backward"] == "explicit" else None
+  return qkeras.QBidirectional(fw, backward_layer=bw, merge_mode=g["merge_mode"], name="q"), kw
+
+
 def run_case(case):
   tf = common.tf_init()
   common.reset_keras()
@@ -188,139 +223,195 @@ def run_case(case):
   cls, g, slots = case["cls"], case["g"], case["slots"]
   spec = SPECS[cls]
   viol = []
+  L = tf.keras.layers
 
   def bad(clause, what, **d):
     tag = ",".join("%s" % n for n, s in zip(spec["w"] + ["activation"], slots) if s is not None) or "none"
     if len(viol) < 4:
       viol.append({"key": "%s:%s" % (cls, clause), "what": "%s %s (%s): %s" % (cls, clause, tag, what),
                    "detail": dict(case=case, **d)})
-  kw = _kwargs(cls, g)
+  g = dict(g)
+  cf = g.pop("data_format", "channels_last") == "channels_first"
   qkw = dict(zip(spec["w"], slots[:-1]))
   act = slots[-1]
   shape = _input_shape(cls, g)
   xs = [common.tensor(shape, "ramp", case["_seed"]), common.tensor(shape, "signs", case["_seed"])]
-  qlayer = getattr(qkeras, cls)(activation=act, name="q", **kw, **qkw)
-  qlayer(tf.constant(xs[0]))
-  w_raw = set_pattern_weights(qlayer, case["_seed"])
-  ys = [np.asarray(qlayer(tf.constant(x)), dtype=np.float32) for x in xs]
-  # --- reference ----------------------------------------------------------------------------------
-  quants = qlayer.get_quantizers()
-  weights = qlayer.get_weights()
-  if len(quants) < len(weights):
-    bad("get_quantizers", "reports %d quantizers for %d weights" % (len(quants), len(weights)))
-    quants = list(quants) + [None] * (len(weights) - len(quants))
-  wq, changed = [], []
-  for q, w in zip(quants, weights):
-    if q is None:
-      wq.append(w)
-    else:
-      v = np.asarray(q(tf.constant(w)), dtype=np.float32)
-      wq.append(v)
-      changed.append(bool(np.any(v != w)))
-  activation = qlayer.cell.activation if spec.get("rnn") else qlayer.activation
-  L = tf.keras.layers
-  rtol = 0.0
-  if spec.get("rnn"):
-    rtol = 1e-5
-    extra = {}
-    if cls in ("QLSTM", "QGRU"):
-      extra["recurrent_activation"] = qlayer.cell.recurrent_activation
-    ref = getattr(L, spec["stock"])(activation=activation, name="ref", **kw, **extra)
-    ref(tf.constant(xs[0]))
-    ref.set_weights(wq)
-    plain = getattr(L, spec["stock"])(activation=activation, name="plain", **kw, **extra)
-    plain(tf.constant(xs[0]))
-    plain.set_weights(weights)
-    refs = [np.asarray(ref(tf.constant(x)), dtype=np.float32) for x in xs]
-    plains = [np.asarray(plain(tf.constant(x)), dtype=np.float32) for x in xs]
-  elif spec.get("pool"):
-    q = quants[0]
-    stock = getattr(L, spec["stock"])(name="ref", **kw)
-    refs, plains = [], []
-    for x in xs:
-      if cls == "QAveragePooling2D":
-        area = float(np.prod(g["pool"]) if not isinstance(g["pool"], int) else g["pool"] * g["pool"])
-        if q is not None:
-          qf = np.float32(np.asarray(q(1.0 / area), dtype=np.float32))
-          r = np.asarray(stock(tf.constant(x * np.float32(area))), dtype=np.float32) * qf
-        else:
-          r = np.asarray(stock(tf.constant(x)), dtype=np.float32)
-      else:
-        area = float(g["H"] * g["W"])
-        if q is not None:
-          qf = np.asarray(q(1.0 / area), dtype=np.float32)
-          r = np.asarray(tf.reduce_sum(tf.constant(x), axis=[1, 2]) * qf, dtype=np.float32)
-        else:
-          r = np.asarray(stock(tf.constant(x)), dtype=np.float32)
-      p = np.asarray(stock(tf.constant(x)), dtype=np.float32)
-      if activation is not None:
-        r = np.asarray(activation(tf.constant(r)), dtype=np.float32)
-        p = np.asarray(activation(tf.constant(p)), dtype=np.float32)
-      refs.append(r)
-      plains.append(p)
-    if q is not None:
-      area_v = np.float32(1.0 / area)
-      changed.append(bool(np.asarray(q(1.0 / area), dtype=np.float32) != area_v))
-  elif cls == "QScaleShift":
-    refs, plains = [], []
-    for x in xs:
-      r = tf.math.multiply(tf.constant(x), tf.constant(wq[0]))
-      p = tf.math.multiply(tf.constant(x), tf.constant(weights[0]))
-      if g["use_bias"]:
-        r = tf.constant(wq[1]) + r
-        p = tf.constant(weights[1]) + p
-      if activation is not None:
-        r, p = activation(r), activation(p)
-      refs.append(np.asarray(r, dtype=np.float32))
-      plains.append(np.asarray(p, dtype=np.float32))
+  if spec.get("bidir"):
+    qlayer, kw = _build_bidir(tf, qkeras, g, qkw, act, True)
   else:
-    ref = getattr(L, spec["stock"])(activation=activation, name="ref", **kw)
-    ref(tf.constant(xs[0]))
-    ref.set_weights(wq)
-    plain = getattr(L, spec["stock"])(activation=activation, name="plain", **kw)
-    plain(tf.constant(xs[0]))
-    plain.set_weights(weights)
-    refs = [np.asarray(ref(tf.constant(x)), dtype=np.float32) for x in xs]
-    plains = [np.asarray(plain(tf.constant(x)), dtype=np.float32) for x in xs]
+    kw = _kwargs(cls, g)
+    qlayer = getattr(qkeras, cls)(activation=act, name="q", **kw, **qkw, **({"data_format": "channels_first"} if cf else {}))
+
+  def run_q(x):
+    y = np.asarray(qlayer(tf.constant(_to_cf(x) if cf else x)), dtype=np.float32)
+    return _from_cf(y) if cf else y
+  run_q(xs[0])
+  set_pattern_weights(qlayer, case["_seed"])
+  weights = qlayer.get_weights()
+  if spec.get("bidir"):
+    # reported layout: forward [kernel, recurrent, bias, state] then backward [kernel, recurrent, bias, state]; the
+    # weights are forward [kernel, recurrent(, bias)] then backward: each weight's quantizer is what the clause is about
+    rep = list(qlayer.get_quantizers())
+    nf = len(qlayer.forward_layer.get_weights())
+    nb = len(qlayer.backward_layer.get_weights())
+    if len(rep) != 8:
+      bad("get_quantizers", "reports %d quantizers, expected forward and backward [kernel, recurrent, bias, state]" % len(rep))
+      rep = (rep + [None] * 8)[:8]
+    quants = rep[:nf] + rep[4:4 + nb]
+  else:
+    quants = list(qlayer.get_quantizers())
+    if len(quants) < len(weights):
+      bad("get_quantizers", "reports %d quantizers for %d weights" % (len(quants), len(weights)))
+      quants = quants + [None] * (len(weights) - len(quants))
+
+  def evaluate(xs_in):
+    """Outputs of the Q layer, of the stock layer on weights pre-quantized by the REPORTED quantizer objects, and of the
+    stock layer on the raw weights, for the current state of those objects."""
+    ys = [run_q(x) for x in xs_in]
+    wq, changed = [], []
+    for q, w in zip(quants, weights):
+      if q is None:
+        wq.append(w)
+      else:
+        v = np.asarray(q(tf.constant(w)), dtype=np.float32)
+        wq.append(v)
+        changed.append(bool(np.any(v != w)))
+    if spec.get("bidir"):
+      stock_cls = getattr(L, g["inner"][1:])
+      extra = {}
+
+      def mk(name, part, **more):
+        e = dict(extra)
+        if g["inner"] in ("QLSTM", "QGRU"):
+          e["recurrent_activation"] = part.cell.recurrent_activation
+        return stock_cls(activation=part.cell.activation, name=name, **kw, **e, **more)
+
+      def stock(name, ws):
+        # Bidirectional by its definition (the stock wrapper re-creates its layers from their configuration, which would
+        # replace the cell's activation OBJECTS by whatever their names deserialize to): forward rnn, backward rnn with
+        # go_backwards=True whose sequence output is reversed in time, merged
+        fwd = mk(name + "_fw", qlayer.forward_layer)
+        bwd = mk(name + "_bw", qlayer.backward_layer, go_backwards=True)
+        fwd(tf.constant(xs_in[0]))
+        bwd(tf.constant(xs_in[0]))
+        nf_ = len(fwd.get_weights())
+        fwd.set_weights(ws[:nf_])
+        bwd.set_weights(ws[nf_:])
+
+        def call(x):
+          a_, b_ = fwd(tf.constant(x)), bwd(tf.constant(x))
+          if g["return_sequences"]:
+            b_ = tf.reverse(b_, axis=[1])
+          return np.asarray(tf.concat([a_, b_], axis=-1) if g["merge_mode"] == "concat" else a_ + b_, dtype=np.float32)
+        return call
+      ref, plain = stock("ref", wq), stock("plain", weights)
+      refs = [ref(x) for x in xs_in]
+      plains = [plain(x) for x in xs_in]
+      return ys, refs, plains, changed
+    activation = qlayer.cell.activation if spec.get("rnn") else qlayer.activation
+    if spec.get("rnn"):
+      extra = {}
+      if cls in ("QLSTM", "QGRU"):
+        extra["recurrent_activation"] = qlayer.cell.recurrent_activation
+      ref = getattr(L, spec["stock"])(activation=activation, name="ref", **kw, **extra)
+      ref(tf.constant(xs_in[0]))
+      ref.set_weights(wq)
+      plain = getattr(L, spec["stock"])(activation=activation, name="plain", **kw, **extra)
+      plain(tf.constant(xs_in[0]))
+      plain.set_weights(weights)
+      refs = [np.asarray(ref(tf.constant(x)), dtype=np.float32) for x in xs_in]
+      plains = [np.asarray(plain(tf.constant(x)), dtype=np.float32) for x in xs_in]
+    elif spec.get("pool"):
+      q = quants[0]
+      refs, plains = [], []
+      for x in xs_in:
+        stock = getattr(L, spec["stock"])(**kw)
+        if cls == "QAveragePooling2D":
+          area = float(np.prod(g["pool"]) if not isinstance(g["pool"], int) else g["pool"] * g["pool"])
+          if q is not None:
+            qf = np.float32(np.asarray(q(1.0 / area), dtype=np.float32))
+            r = np.asarray(stock(tf.constant(x * np.float32(area))), dtype=np.float32) * qf
+          else:
+            r = np.asarray(stock(tf.constant(x)), dtype=np.float32)
+        else:
+          area = float(x.shape[1] * x.shape[2])
+          if q is not None:
+            qf = np.asarray(q(1.0 / area), dtype=np.float32)
+            r = np.asarray(tf.reduce_sum(tf.constant(x), axis=[1, 2]) * qf, dtype=np.float32)
+          else:
+            r = np.asarray(stock(tf.constant(x)), dtype=np.float32)
+        p = np.asarray(stock(tf.constant(x)), dtype=np.float32)
+        if activation is not None:
+          r = np.asarray(activation(tf.constant(r)), dtype=np.float32)
+          p = np.asarray(activation(tf.constant(p)), dtype=np.float32)
+        refs.append(r)
+        plains.append(p)
+        if q is not None:
+          changed.append(bool(np.asarray(q(1.0 / area), dtype=np.float32) != np.float32(1.0 / area)))
+    elif cls == "QScaleShift":
+      refs, plains = [], []
+      for x in xs_in:
+        r = tf.math.multiply(tf.constant(x), tf.constant(wq[0]))
+        p = tf.math.multiply(tf.constant(x), tf.constant(weights[0]))
+        if g["use_bias"]:
+          r = tf.constant(wq[1]) + r
+          p = tf.constant(weights[1]) + p
+        if activation is not None:
+          r, p = activation(r), activation(p)
+        refs.append(np.asarray(r, dtype=np.float32))
+        plains.append(np.asarray(p, dtype=np.float32))
+    else:
+      ref = getattr(L, spec["stock"])(activation=activation, name="ref", **kw)
+      ref(tf.constant(xs_in[0]))
+      ref.set_weights(wq)
+      plain = getattr(L, spec["stock"])(activation=activation, name="plain", **kw)
+      plain(tf.constant(xs_in[0]))
+      plain.set_weights(weights)
+      refs = [np.asarray(ref(tf.constant(x)), dtype=np.float32) for x in xs_in]
+      plains = [np.asarray(plain(tf.constant(x)), dtype=np.float32) for x in xs_in]
+    return ys, refs, plains, changed
+
+  rtol = 1e-5 if spec.get("rnn") else 0.0
   if spec.get("pool"):
     # same layer OBJECT called again on a different spatial extent (pooling layers have no weights, so this is
     # legal): nothing computed for the first geometry may survive into the second call
     shape2 = (2, g["H"] + 2, g["W"] + 1, g["c"])
-    x2 = common.tensor(shape2, "ramp", case["_seed"])
-    y2 = np.asarray(qlayer(tf.constant(x2)), dtype=np.float32)
-    q = quants[0]
-    stock2 = getattr(L, spec["stock"])(name="ref2", **kw)
-    if cls == "QAveragePooling2D":
-      area2 = float(np.prod(g["pool"]) if not isinstance(g["pool"], int) else g["pool"] * g["pool"])
-      r2 = (np.asarray(stock2(tf.constant(x2 * np.float32(area2))), dtype=np.float32) *
-            np.float32(np.asarray(q(1.0 / area2), dtype=np.float32))) if q is not None else np.asarray(stock2(tf.constant(x2)), dtype=np.float32)
-    else:
-      area2 = float(shape2[1] * shape2[2])
-      r2 = np.asarray(tf.reduce_sum(tf.constant(x2), axis=[1, 2]) * np.asarray(q(1.0 / area2), dtype=np.float32), dtype=np.float32) \
-          if q is not None else np.asarray(stock2(tf.constant(x2)), dtype=np.float32)
-    if activation is not None:
-      r2 = np.asarray(activation(tf.constant(r2)), dtype=np.float32)
-    xs, ys, refs, plains = xs + [x2], ys + [y2], refs + [r2], plains + [r2 + 1]
+    xs = xs + [common.tensor(shape2, "ramp", case["_seed"])]
   differs = False
-  for x, y, r, p in zip(xs, ys, refs, plains):
-    if y.shape != r.shape:
-      bad("shape", "output shape %r, stock layer %r" % (y.shape, r.shape))
-      continue
-    if rtol:
-      ok = np.allclose(y, r, rtol=rtol, atol=1e-6)
-    else:
-      ok = np.array_equal(y, r)
-    if not ok:
-      i = np.unravel_index(int(np.argmax(np.abs(y.astype(np.float64) - r))), y.shape)
-      nq = "no-quantizers" if all(s is None for s in slots) else "quantized"
-      bad("drop-in:" + nq, "output %r, stock layer on pre-quantized weights gives %r (max abs diff %g); geometry %r" % (
-          float(y[i]), float(r[i]), float(np.max(np.abs(y.astype(np.float64) - r))), g))
-      break
-    if np.any(y != p):
-      differs = True
-  nontrivial = int(all(changed) and len(changed) > 0 and differs)
-  return {"evals": len(xs), "transitions": 3 * len(xs), "nontrivial": nontrivial,
-          "state": "%s|%r|%r" % (cls, sorted(g.items(), key=lambda kv: kv[0]), slots),
-          "digest": common.digest(*ys), "violations": viol, "traces": len(xs),
-          "sample": {"cls": cls, "geometry": g, "slots": dict(zip(spec["w"] + ["activation"], slots)),
-                     "input_shape": list(shape)}}
+  all_changed = []
+  digests = []
+  phases = ["as-configured", "reported-quantizers-reconfigured"]
+  for phase in phases:
+    if phase == "reported-quantizers-reconfigured":
+      # the reported quantizer objects ARE the applied ones: switching their quantization noise off through the reported
+      # handles (an attribute the scheduler callback drives on exactly these handles) must switch it off in the layer
+      handles = [q for q in quants if q is not None and hasattr(q, "update_qnoise_factor") and hasattr(q, "qnoise_factor")]
+      if not handles or viol:
+        break
+      for q in handles:
+        q.update_qnoise_factor(0.0)
+    ys, refs, plains, changed = evaluate(xs)
+    digests.append(common.digest(*ys))
+    if phase == "as-configured":
+      all_changed = changed
+    for x, y, r, p in zip(xs, ys, refs, plains):
+      if y.shape != r.shape:
+        bad("shape", "output shape %r, stock layer %r" % (y.shape, r.shape))
+        continue
+      ok = np.allclose(y, r, rtol=rtol, atol=1e-6) if rtol else np.array_equal(y, r)
+      if not ok:
+        i = np.unravel_index(int(np.argmax(np.abs(y.astype(np.float64) - r))), y.shape)
+        nq = "no-quantizers" if all(s is None for s in slots) else "quantized"
+        if phase != "as-configured":
+          nq = "reported-handles"
+        bad("drop-in:" + nq, "[%s] output %r, stock layer on weights pre-quantized by the reported quantizers gives %r (max abs diff "
+            "%g); geometry %r" % (phase, float(y[i]), float(r[i]), float(np.max(np.abs(y.astype(np.float64) - r))), case["g"]))
+        break
+      if phase == "as-configured" and np.any(y != p):
+        differs = True
+  nontrivial = int(all(all_changed) and len(all_changed) > 0 and differs)
+  return {"evals": len(xs) * len(digests), "transitions": 3 * len(xs) * max(1, len(digests)), "nontrivial": nontrivial,
+          "state": "%s|%r|%r" % (cls, sorted(case["g"].items(), key=lambda kv: kv[0]), slots),
+          "digest": common.digest(*digests), "violations": viol, "traces": len(xs) * len(digests),
+          "sample": {"cls": cls, "geometry": case["g"], "slots": dict(zip(spec["w"] + ["activation"], slots)),
+                     "input_shape": list(shape), "phases": len(digests)}}
